@@ -154,6 +154,8 @@ func fillHistEvidence(cfg *RunCfg, ev *Evidence, cov *Cov) {
 	ev.Coverage["multi_pass_calls_stopped_by_backoff"] = cov.Get("multi_stopped")
 	if cfg.Property == "C20" {
 		ev.Coverage["backup_vs_delete"] = cov.Counts("c20conc.")
+		ev.Coverage["backups_through_readonly_handle"] = cov.Get("backups_through_readonly_handle")
+		ev.Coverage["histories_with_unclean_directory_spelling"] = cov.Get("histories_with_unclean_directory_spelling")
 	}
 	ev.Coverage["samples"] = cov.Samples()
 	for k, v := range cov.Counts("c1") {
